@@ -291,3 +291,27 @@ func isExportedFunc(fn *ssa.Function) bool {
 	}
 	return obj.Exported()
 }
+
+// unspill: with defers, go/ssa spills results into local slots and reloads
+// them after rundefers. Given a value, returns the values that may have been
+// stored into the slot it was loaded from (or the value itself).
+func unspill(v ssa.Value) []ssa.Value {
+	u, ok := v.(*ssa.UnOp)
+	if !ok || u.Op != token.MUL {
+		return []ssa.Value{v}
+	}
+	a, ok := u.X.(*ssa.Alloc)
+	if !ok {
+		return []ssa.Value{v}
+	}
+	var out []ssa.Value
+	for _, r := range refs(a) {
+		if st, ok := r.(*ssa.Store); ok && st.Addr == a {
+			out = append(out, st.Val)
+		}
+	}
+	if len(out) == 0 {
+		return []ssa.Value{v}
+	}
+	return out
+}
